@@ -106,7 +106,12 @@ func c04run(out *rec.Out, c c04case, rng *rec.Rng, stats map[string]int) {
 			g.Connect(a, x, nil)
 		}
 	}
-	out.Begin("c04", c.c, c.defPos, c.truth, c.toks, c.conc)
+	// a third of the single-token cases are written in XPath (the definitions' expression language and every condition)
+	g.XPath = c.toks == 1 && (c.c+c.defPos+c.truth)%3 == 0
+	if g.XPath {
+		stats["xpath_definitions"]++
+	}
+	out.Begin("c04", c.c, c.defPos, c.truth, c.toks, c.conc, rec.B(g.XPath))
 	defer out.End()
 	if c.conc == 2 {
 		ctl := sched.Install()
